@@ -229,11 +229,50 @@ def chk_frame(K, op):
     return None
 
 
+def mutable_parts(h):
+    """ids of every aggregator in the tree and of the mutable collections hanging off them (dict / list attributes)"""
+    nodes, colls, dup = {}, {}, None
+    stack = [h]
+    while stack:
+        n = stack.pop()
+        if id(n) in nodes:
+            dup = dup or f"{type(n).__name__} object occurs at two positions of one tree"
+            continue
+        nodes[id(n)] = n
+        for k, v in vars(n).items():
+            if isinstance(v, (dict, list)) and k not in ("fill", "plot"):
+                colls[id(v)] = (type(n).__name__, k)
+        tmpl = vars(n).get("value")
+        try:
+            stack.extend(c for c in n.children if c is not tmpl)
+        except Exception:
+            pass
+    return nodes, colls, dup
+
+
 def chk_fresh(K, op):
     f = _pure_ops(K)[op]
     probe = [datum(x, c=c) for x, c in zip(XS[:8], itertools.cycle(CATS))]
+    facs = {"__mul__": [2.0, 1.0, 0.0, -1.0], "__rmul__": [2.0, 1.0, 0.0]}.get(op)
     for ck in child_kinds(K):
         for d1, d2 in itertools.islice(itertools.product(datasets(), datasets()), 0, 60):
+            # structural part: the result shares no aggregator and no dict / list with an operand, and holds no
+            # aggregator at two positions
+            for fac in facs or [None]:
+                a, b = fill_all(make(K, ck), d1), fill_all(make(K, ck), d2)
+                r = f(a, b) if fac is None else ((a * fac) if op == "__mul__" else (fac * a))
+                rn, rc, dup = mutable_parts(r)
+                if dup:
+                    return f"{K}[{ck}].{op}{'' if fac is None else f' by {fac}'}: result: {dup} (operands filled with {d1} / {d2})"
+                for x in (a, b):
+                    xn, xc, _ = mutable_parts(x)
+                    tmpl_ids = {id(vars(n).get("value")) for n in xn.values()}
+                    shared = [type(xn[i]).__name__ for i in rn if i in xn and i not in tmpl_ids]
+                    if shared:
+                        return f"{K}[{ck}].{op}{'' if fac is None else f' by {fac}'}: the result holds the operand's own {shared[0]} object (operands filled with {d1} / {d2})"
+                    sc = [rc[i] for i in rc if i in xc]
+                    if sc:
+                        return f"{K}[{ck}].{op}{'' if fac is None else f' by {fac}'}: the result's {sc[0][0]}.{sc[0][1]} is the operand's own collection object"
             a, b = fill_all(make(K, ck), d1), fill_all(make(K, ck), d2)
             r = f(a, b)
             ja, jb = js(a), js(b)
@@ -377,8 +416,24 @@ def chk_compat(K, op, clause):
             if clause == "frame" and raised and (js(a) != ja or js(b) != jb):
                 return f"{K}.{op}: rejected merge ({what}, filled {len(fa)}/{len(fb)} data) changed an operand"
     if clause == "frame" or clause.startswith("rejects"):
-        for other in (hg.Count() if K != "Count" else hg.Sum(qx), None, 3.0):
+        # operands of another primitive type, incl. a Select wrapping an aggregator of the receiver's own class (Select
+        # forwards unknown attributes to its cut, so duck-typed merge code sees all the attributes it looks for) and a
+        # Fraction of it
+        def wrapped():
+            return fill_all(hg.Select(qsel, make(K)), data)
+
+        def fractioned():
+            return fill_all(hg.Fraction(qsel, make(K)), data)
+
+        for other in (hg.Count() if K != "Count" else hg.Sum(qx), None, 3.0, wrapped, fractioned):
+            if callable(other) and not isinstance(other, hg.defs.Container):
+                try:
+                    other = other()
+                except Exception:
+                    continue
             a = fill_all(make(K), data)
+            if isinstance(other, hg.defs.Container) and other.name == a.name:
+                continue  # same primitive type: a structural mismatch, covered above
             ja = js(a)
             raised = False
             try:
@@ -611,7 +666,7 @@ def run_clause(K, method, clause):
     if method == "zero":
         if what == "view":
             return chk_zero_view(K)
-        if what == "fresh":
+        if what in ("fresh", "no-internal-sharing"):
             return chk_fresh(K, "zero")
         if what == "frame":
             return chk_frame(K, "zero")
@@ -620,7 +675,7 @@ def run_clause(K, method, clause):
     if method == "__add__":
         if what == "view" or what == "bk" or what == "quantity":
             return chk_add_view(K)
-        if what == "fresh":
+        if what in ("fresh", "no-internal-sharing"):
             return chk_fresh(K, "__add__")
         if what == "frame" and kind == "ensures":
             return chk_frame(K, "__add__")
@@ -647,7 +702,7 @@ def run_clause(K, method, clause):
             return chk_mul(K, "view", rm)
         if what == "wf":
             return chk_mul(K, "wf", rm)
-        if what == "fresh":
+        if what in ("fresh", "no-internal-sharing"):
             return chk_fresh(K, method)
         if what == "frame":
             return chk_frame(K, method)
@@ -756,6 +811,15 @@ def chk_c17(what):
                             same = got == want
                         if not same:
                             return f"wrapped call returned {got!r} instead of {want!r} at {x!r} kw={kw} in sequence {seq!r}"
+        # an array argument that the caller refills in place between calls (the _numpy methods reuse one buffer)
+        for wrap in (cached, lambda h: named("n", cached(h))):
+            w = wrap(lambda a: float(a.sum()))
+            buf = np.array([1.0, 2.0, 3.0])
+            for step in range(4):
+                got, want = w(buf), float(buf.sum())
+                if got != want:
+                    return f"cached function called with an array that was refilled in place returned {got!r} instead of {want!r} (step {step})"
+                buf[step % 3] += 10.0
         # a function that raises on some arguments: the wrapper raises exactly when the function does, and a
         # call that raised leaves the cache describing the last successful call
         def fr(x):
@@ -1360,8 +1424,8 @@ def _is_empty(v):
 def chk_numpy(K, skip=(), only_kids=None, exclude_kids=()):
     import numpy as np
 
-    xs = [0.5, NAN, -INF, INF, -1.0, 0.0, 1.0, 2.5, 3.0, 2.9999999999999996, 1.75]
-    cats = ["a", "b", "a", "c", "b", "a", "a", "c", "b", "a", "c"]
+    xs = [0.5, NAN, -INF, INF, -1.0, 0.0, 1.0, 2.5, 3.0, 2.9999999999999996, 1.75, 1e19, -1e300]
+    cats = ["a", "b", "a", "c", "b", "a", "a", "c", "b", "a", "c", "b", "a"]
 
     def qxn(d):
         return d["x"]
@@ -1381,6 +1445,7 @@ def chk_numpy(K, skip=(), only_kids=None, exclude_kids=()):
     kids = {
         "Count": lambda: hg.Count(),
         "CountT": lambda: hg.Count(wtr),
+        "CountTC": lambda: hg.Count(hg.util.cached(wtr)),
         "Sum": lambda: hg.Sum(qyn),
         "Average": lambda: hg.Average(qyn),
         "Deviate": lambda: hg.Deviate(qyn),
@@ -1388,6 +1453,8 @@ def chk_numpy(K, skip=(), only_kids=None, exclude_kids=()):
         "Maximize": lambda: hg.Maximize(qyn),
         "Bin2": lambda: hg.Bin(2, 0.0, 1.0, qyn, hg.Count()),
     }
+
+    unsorted = False
 
     def mk(ck):
         c = kids[ck]
@@ -1403,7 +1470,7 @@ def chk_numpy(K, skip=(), only_kids=None, exclude_kids=()):
             "SparselyBin": lambda: hg.SparselyBin(1.0, qxn, c(), c()),
             "CentrallyBin": lambda: hg.CentrallyBin([0.0, 1.0, 2.5], qxn, c(), c()),
             "IrregularlyBin": lambda: hg.IrregularlyBin([0.0, 1.0, 2.0], qxn, c(), c()),
-            "Stack": lambda: hg.Stack([0.0, 1.0, 2.0], qxn, c(), c()),
+            "Stack": lambda: hg.Stack([2.0, 0.0, 1.0] if unsorted else [0.0, 1.0, 2.0], qxn, c(), c()),
             "Fraction": lambda: hg.Fraction(qsel_n, c()),
             "Select": lambda: hg.Select(qsel_n, c()),
             "Categorize": lambda: hg.Categorize(qcn, c()),
@@ -1421,18 +1488,19 @@ def chk_numpy(K, skip=(), only_kids=None, exclude_kids=()):
     weights_variants = ["one", "scalar", "array"]
     if K == "Count":
         return None  # a bare Count has no quantity: outside the property (no fill.numpy entry point)
-    child_kinds_ = ["Count"] if K in LEAVES else ["Count", "CountT", "Sum", "Average", "Deviate", "Minimize", "Bin2"]
+    child_kinds_ = ["Count"] if K in LEAVES else ["Count", "CountT", "CountTC", "Sum", "Average", "Deviate", "Minimize", "Bin2"]
     if K in ("Label", "Index"):
-        child_kinds_ = child_kinds_[2:]  # all-Count collections have no quantity-bearing node
+        child_kinds_ = child_kinds_[3:]  # all-Count collections have no quantity-bearing node
     if only_kids is not None:
         child_kinds_ = [c for c in child_kinds_ if c in only_kids]
     child_kinds_ = [c for c in child_kinds_ if c not in exclude_kids]
-    for ck in child_kinds_:
+    for ck, unsorted_ in [(ck, u) for ck in child_kinds_ for u in ((False, True) if K == "Stack" else (False,))]:
+        unsorted = unsorted_  # thresholds in the order given (the constructor does not sort them)
         for rows in batches:
             if any((K, r[0]) in skip or (ck, r[0]) in skip for r in rows):
                 continue
             x = np.array([r[0] for r in rows], dtype=float)
-            y = np.array([r[0] if r[0] == r[0] and abs(r[0]) != INF else 0.25 for r in rows], dtype=float)
+            y = np.array([r[0] if r[0] == r[0] and abs(r[0]) < 1e6 else 0.25 for r in rows], dtype=float)
             c = np.array([r[1] for r in rows])
             data = np.rec.fromarrays([x, y, c], names=["x", "y", "c"])
             for wv in weights_variants:
@@ -1565,4 +1633,28 @@ def chk_bag_vector(what):
                             o.fill(vec(idx1 if (k == 0) else idx), 1.0 + k)
                         if len(o.values) == len(h.values) and (h == o or o == h or not (h != o)):
                             return f"Bag {rng}: key {idx0} vs {idx1} (index 2 = NaN, 3 = inf) compare equal (other fills {seq[1:]})"
+    return None
+
+
+def chk_stack_build():
+    """Stack.build (thresholds unknown: NaN) and its clones are interchangeable: the pickle clone and the JSON reload can
+    be merged with the original, with each other, scaled and re-serialised to the same document"""
+    import pickle
+
+    data = [datum(0.5), datum(1.5), datum(2.5), datum(NAN)]
+    parts = [fill_all(hg.Bin(3, 0.0, 3.0, qx), data[:n]) for n in (1, 2, 4)]
+    sb = hg.Stack.build(*parts)
+    doc = sb.toJson()
+    clones = {"pickle clone": pickle.loads(pickle.dumps(sb)), "JSON reload": hg.Factory.fromJson(doc), "copy": sb.copy()}
+    for nm, c in clones.items():
+        if c.toJson() != doc:
+            return f"Stack.build: the {nm} serialises differently"
+        for what, op in (("original + clone", lambda: sb + c), ("clone + original", lambda: c + sb), ("clone + clone", lambda: c + c), ("clone * 2", lambda: c * 2.0), ("clone.zero() + clone", lambda: c.zero() + c)):
+            try:
+                r = op()
+            except Exception as e:
+                return f"Stack.build, {nm}: {what} raised {e!r}"
+            want = (sb * 2.0).toJson() if what != "clone.zero() + clone" else doc
+            if not approx_eq(r.toJson(), want):
+                return f"Stack.build, {nm}: {what} differs from the same operation on the original"
     return None
